@@ -269,3 +269,74 @@ package engine
 //@   modifies bs.clients.$mapver, bs.clientsCount
 //@   ensures [C04.unregister] calls((*types.Map).Delete) == 1 && arg((*types.Map).Delete, 1, key) == id && !uf_b_mapHas(bs.clients, id, bs.clients.$mapver)
 //@   ensures [C04.minusone]   bs.clientsCount.v == old(bs.clientsCount.v) - 1
+
+// ---- C10: the limit is installed on the connection before the first read --------------------------------
+//@ func (*server).OnWebTransportSession(ctx, wt)
+//@   props C10, C08, C09
+//@   requires s != nil && s.BaseServer != nil && ctx != nil && wt != nil && ctx.request != nil && ctx.query != nil
+//@   dyncall allowRequest pure
+//@   opt stopafter = (*webtrans.Conn).NextReader#1
+//@   modifies *
+//@   callsite (*webtrans.Conn).NextReader#1
+//@     assert [C10.wtlimit] wtc.readLimit == s.BaseServer.Opts().MaxHttpBufferSize() && calls((*webtrans.Conn).SetReadLimit) == 1
+
+//@ func (*server).HandleUpgrade$1(codeMessage, errorContext)
+//@   props C10, C05
+//@   requires s != nil && s.BaseServer != nil && ctxOK(ctx)
+//@   requires maphas(errorContext, "message") ==> typeis(mapval(errorContext, "message"), string)
+//@   modifies *
+//@   ensures [C05.upgradereject] codeMessage != nil ==> calls((*server).emitAbortRequest) == 1 && calls((*server).onWebSocket) == 0 && calls((*websocket.Upgrader).Upgrade) == 0
+//@   ensures [C10.wslimit] calls((*server).onWebSocket) == 1 ==> calls((*websocket.Conn).SetReadLimit) == 1 && arg((*websocket.Conn).SetReadLimit, 1, limit) == s.BaseServer.Opts().MaxHttpBufferSize() && before((*websocket.Conn).SetReadLimit, 1, (*server).onWebSocket, 1)
+//@ func (*server).emitAbortRequest(ctx, codeMessage, errorContext)
+//@   props C05
+//@   requires s != nil && s.BaseServer != nil && ctxOK(ctx) && codeMessage != nil
+//@   requires maphas(errorContext, "message") ==> typeis(mapval(errorContext, "message"), string)
+//@   modifies *
+//@   ensures [C05.emit.one] emitted(s.BaseServer, "connection_error") == 1 && calls(abortRequest) == 1 && before(types.EventEmitter.Emit, 1, abortRequest, 1) && nevents() == 2
+//@   callsite abortRequest#1
+//@     assert [C05.emit.same] $ctx == ctx && $codeMessage == codeMessage && $errorContext == errorContext
+//@ func (*server).onWebSocket(ctx, wsc)
+//@   modifies *
+
+// ---- C05: the rejection answer ----------------------------------------------------------------------------
+//@ func abortRequest(ctx, codeMessage, errorContext)
+//@   props C05
+//@   requires ctxOK(ctx) && codeMessage != nil
+//@   requires maphas(errorContext, "message") ==> typeis(mapval(errorContext, "message"), string)
+//@   modifies *
+//@   let override = maphas(errorContext, "message")
+//@   ensures [C05.abort.status] calls((*types.HttpContext).SetStatusCode) == 1 && arg((*types.HttpContext).SetStatusCode, 1, statusCode) == (codeMessage == FORBIDDEN ? 403 : 400)
+//@   ensures [C05.abort.one]    calls((*types.HttpContext).Write) + calls(io.WriteString) == 1
+//@   callsite json.Marshal#1
+//@     assert [C05.abort.code]    unbox($v, types.CodeMessage).Code == codeMessage.Code
+//@     assert [C05.abort.message] unbox($v, types.CodeMessage).Message == (override ? unbox(mapval(errorContext, "message"), string) : codeMessage.Message)
+//@   callsite (*types.HttpContext).Write#1
+//@     assert [C05.abort.body] $wb == ret(json.Marshal, 1, 0) && ret(json.Marshal, 1, 1) == nil
+
+//@ func abortUpgrade(ctx, codeMessage, errorContext)
+//@   modifies *
+
+//@ func BaseServer.Handshake(transportName, ctx)
+//@   modifies *
+//@   ensures result1 == nil ==> result0 != nil
+//@ func BaseServer.Clients()
+//@   opt stable
+//@   noeffect
+//@   ensures result != nil
+//@ func BaseServer.Verify(ctx, upgrade)
+//@   modifies *
+
+// the continuation of HandleRequest after the middlewares and Verify: rejected requests create no session and
+// disturb none; a request naming a session goes to that session's transport; others handshake
+//@ func (*server).HandleRequest$1(codeMessage, errorContext)
+//@   props C05, C04
+//@   requires s != nil && s.BaseServer != nil && ctxOK(ctx)
+//@   requires maphas(errorContext, "message") ==> typeis(mapval(errorContext, "message"), string)
+//@   modifies *
+//@   let sid = uf_s_peek(ctx.query, "sid", old(ctx.query.$bagver))
+//@   ensures [C05.req.reject]    codeMessage != nil ==> calls((*server).emitAbortRequest) == 1 && calls(BaseServer.Handshake) == 0 && calls(transports.Transport.OnRequest) == 0 && nevents() == 1
+//@   ensures [C05.req.session]   codeMessage == nil && sid != "" && ret((*types.Map).Load, 1, 1) ==> calls(transports.Transport.OnRequest) == 1 && calls(BaseServer.Handshake) == 0 && calls(abortRequest) == 0
+//@   ensures [C04.req.unknown]   codeMessage == nil && sid != "" && !ret((*types.Map).Load, 1, 1) ==> calls(abortRequest) == 1 && arg(abortRequest, 1, codeMessage) == UNKNOWN_SID && calls(transports.Transport.OnRequest) == 0 && calls(BaseServer.Handshake) == 0
+//@   ensures [C05.req.handshake] codeMessage == nil && sid == "" ==> calls(BaseServer.Handshake) == 1 && calls(transports.Transport.OnRequest) == 0
+//@   ensures [C05.req.hsreject]  codeMessage == nil && sid == "" && ret(BaseServer.Handshake, 1, 1) == nil ==> calls(abortRequest) == 1 && arg(abortRequest, 1, codeMessage) == ret(BaseServer.Handshake, 1, 0) && calls((*server).emitAbortRequest) == 0
+//@   ensures [C05.req.hsaccept]  codeMessage == nil && sid == "" && ret(BaseServer.Handshake, 1, 1) != nil ==> calls(abortRequest) == 0
